@@ -12,6 +12,16 @@ class UnexpectedDER(Exception):
     pass
 
 
+def _int_text(value):
+    """Text of an integer (or a tuple of integers, like an OID) for error
+    messages; values too large for str() conversion must not turn a decoding
+    error into a ValueError."""
+    try:
+        return "%s" % (value,)
+    except ValueError:
+        return "<value too large to display>"
+
+
 def encode_constructed(tag, value):
     return int2byte(0xA0 + tag) + encode_length(len(value)) + value
 
